@@ -19,13 +19,14 @@ def plan(tier, seed):
         for b in ATOMS:
             chunks.append({'kind': 'strings', 'prefix': [a, b], 'maxlen': L})
     chunks.append({'kind': 'get_label'})
+    chunks += [{'kind': 'reader', 'sep': sep, 'maxlen': 3 if tier == 'quick' else 4} for sep in SEPS]
     return {
         'chunks': chunks,
         'rule': 'every string of <= %d atoms over %r, parsed with gf separator absent/-/#; '
                 'formatted with every subset of always_label/always_gf; every single component '
                 'emptied; plus get_label on every combination of node kind x edge x flags x all '
-                'option subsets. non-trivial = distinct strings with at least one separator, '
-                'index, marker or default literal' % (L, ATOMS),
+                'option subsets; every string of <= %d atoms as a constituent label in bracketed text read with gf_split x the three separators (label and edge must be the parse with the function taken out). non-trivial = distinct strings with at least one separator, '
+                'index, marker or default literal' % (L, ATOMS, 3 if tier == 'quick' else 4),
         'bound': 'strings of <= %d atoms (alphabet of %d atoms)' % (L, len(ATOMS)),
         'exhaustive': True,
         'assumptions': ['labels contain no whitespace'],
@@ -200,8 +201,52 @@ def check_get_label(c):
     return out
 
 
+def check_readers(sepopt, maxlen, only=None):
+    """The readers' gf_split is parse + format with the function taken out: every string of <= maxlen atoms as
+    the label of a constituent of a bracketed sentence, read with gf_split (and gf_separator)."""
+    import os
+    from ..runner import scratch
+    from ..bridge import cli_options
+    from trees import treeinput
+    sep = sepopt or '-'
+    labels = [x for L in range(1, maxlen + 1) for x in (''.join(t) for t in itertools.product(ATOMS, repeat=L))]
+    if only is not None:
+        labels = [only]
+    path = os.path.join(scratch(), 'c20-%d.mrg' % os.getpid())
+    with open(path, 'w', encoding='utf-8') as f:
+        for lab in labels:
+            f.write('(VROOT (%s (T w)))\n' % lab)
+    opts = {'gf_split': True}
+    if sepopt is not None:
+        opts['gf_separator'] = sepopt
+    out = []
+    try:
+        got = [(t.children[0].data['label'], t.children[0].data['edge'])
+               for t in treeinput.brackets(path, 'utf-8', quiet=True, **cli_options(opts))]
+    except Exception as e:
+        return [{'kind': 'exception', 'where': 'treeinput.brackets', 'case': {'reader': True, 'sep': sepopt, 'maxlen': maxlen, 'only': only},
+                 'detail': '%s: %s' % (type(e).__name__, e), 'what': 'bracket reader with gf_split raised'}], len(labels)
+    finally:
+        os.unlink(path)
+    if len(got) != len(labels):
+        return [{'kind': 'tree-count', 'where': 'treeinput.brackets', 'case': {'reader': True, 'sep': sepopt, 'maxlen': maxlen, 'only': only},
+                 'detail': '%d trees for %d sentences' % (len(got), len(labels)), 'what': 'bracket reader lost sentences'}], len(labels)
+    for lab, (glabel, gedge) in zip(labels, got):
+        p = ref_parse(lab, sep)
+        exp = ((p['cat'] or 'EMPTY') + ('=' + p['gap'] if p['gap'] else '') + ('-' + p['co'] if p['co'] else '') + p['head'],
+               p['gf'] or '--')
+        if (glabel, gedge) != exp:
+            out.append({'kind': 'reader-split', 'where': 'treeinput.brackets', 'case': {'reader': True, 'sep': sepopt, 'maxlen': maxlen, 'only': lab},
+                        'detail': 'label %r read with gf_split (separator %r) gives label %r, edge %r; expected %r, %r'
+                                  % (lab, sepopt, glabel, gedge, exp[0], exp[1]),
+                        'what': 'gf_split in the bracket reader is not parse + format without the function'})
+    return out, len(labels)
+
+
 def check_case(case):
     with quiet():
+        if case.get('reader'):
+            return check_readers(case['sep'], case['maxlen'], case.get('only'))[0]
         if 'get_label' in case:
             return check_get_label(case['get_label'])
         return check_string(case['s'], case['sep'])
@@ -224,6 +269,15 @@ def strings(chunk):
 def run_chunk(chunk):
     res = Result()
     with quiet():
+        if chunk['kind'] == 'reader':
+            vs, n = check_readers(chunk['sep'], chunk['maxlen'])
+            res.evals += n
+            res.nontrivial += n
+            res.outcome(('reader', chunk['sep'], len(vs)))
+            for v in vs:
+                res.violation(v['kind'], v['where'], v['case'], v['detail'], v['what'])
+            res.sample({'bracket_reader_gf_split': True, 'gf_separator': chunk['sep'], 'labels': n})
+            return res
         if chunk['kind'] == 'get_label':
             for c in get_label_cases():
                 res.evals += 1
